@@ -3,4 +3,4 @@ From Martian.Common Require Import ExtractBase.
 From Martian.C03 Require Import Model.
 Extraction Language OCaml.
 Extraction "model.ml" base_anchor c03_ok spec_view model_obs client_view project oresp_eqb
-  own_tags_only classify handle3 served3 expected wf3 body_wire.
+  own_tags_only classify handle3 served3 expected wf3 body_wire c03_ok_raw observe warning_ok warning_value.
